@@ -9,7 +9,9 @@ EXPLANATION = (
     'dense-mapping draw over (sigma, message, index), the party stake and the total stake arrive in the same argument '
     'positions; evaluate_dense_mapping has one definition and hashes (msg, index, sigma); (b) the decision is a deterministic '
     'function of its four arguments: the workspace+std call closure of is_lottery_won contains no clock, RNG, file, env, '
-    'thread-local or global state; (c) the signer only tries indices in [0,m). Does NOT decide the core of the property: '
+    'thread-local or global state; (c) the signer only tries indices in [0,m); (d) stake and total stake reach the rational '
+    'arithmetic through value-preserving conversions only (no narrowing, sign-changing or float cast, no shift / mask / division on the '
+    'machine integers) - a necessary condition of exactness for totals up to 2^64-1. Does NOT decide the core of the property: '
     'exactness of the Taylor comparison, the error band, monotonicity, the zero-stake and phi_f=1 outcomes are numerical '
     'statements over a continuum.')
 
@@ -129,3 +131,105 @@ def run(ctx):
         for c in sites:
             pass
         ctx.arg_origin('c', sf, DENSE, 2, require=['call:*Iterator*::next'], desc='(index) <- loop variable')
+
+
+# ---- (d) added after seed C08-2: lossless transport of the integer inputs
+LOSSLESS_FROM_U64 = {'u64', 'usize', 'u128', 'i128'}
+LOSSY_CALLS = ['*::to_f64', '*::to_f32', '*::to_i64', '*::to_i32', '*::to_u32', '*ToPrimitive*', '*::as_', '*::wrapping_*', '*::saturating_*',
+               '*::truncate', '*::to_string', '*::from_str*']
+
+
+def run_inputs(ctx):
+    from engine import flows_forward
+    R = ctx.report
+    R.clause('d', 'stake and total stake reach the rational arithmetic through value-preserving conversions only')
+    f = ctx.try_fn('d', LOT)
+    if f is None:
+        return
+    body = f.body
+    # params: _1 phi_f, _2 ev, _3 stake, _4 total_stake
+    if body.argc != 4 or body.lty(3) != 'u64' or body.lty(4) != 'u64':
+        R.missing('d', 'is_lottery_won(phi_f, ev, stake: u64, total_stake: u64): unexpected signature %s' % [body.lty(i) for i in range(1, body.argc + 1)])
+        return
+    # locals that still hold a machine integer derived from stake / total_stake (flow stops at non-integer types: BigInt, Ratio)
+    ints = ('u8', 'u16', 'u32', 'u64', 'u128', 'usize', 'i8', 'i16', 'i32', 'i64', 'i128', 'isize', 'f32', 'f64')
+    der = {3, 4}
+    changed = True
+    bad = []
+    while changed:
+        changed = False
+        for b in body.blocks:
+            if b.cleanup:
+                continue
+            for (ln, pl, rv) in b.stmts:
+                if pl[1] or pl[0] in der:
+                    continue
+                srcs = []
+                if rv[0] in ('use', 'cast', 'un'):
+                    o = rv[1] if rv[0] == 'use' else rv[2]
+                    if o[0] in ('copy', 'move') and not o[1][1]:
+                        srcs.append(o[1][0])
+                elif rv[0] == 'bin':
+                    for o in (rv[2], rv[3]):
+                        if o[0] in ('copy', 'move') and not o[1][1]:
+                            srcs.append(o[1][0])
+                if any(s in der for s in srcs) and body.lty(pl[0]).lstrip('&') in ints:
+                    der.add(pl[0])
+                    changed = True
+    for b in body.blocks:
+        if b.cleanup:
+            continue
+        for (ln, pl, rv) in b.stmts:
+            if rv[0] == 'cast' and rv[2][0] in ('copy', 'move') and rv[2][1][0] in der:
+                src_ty = body.lty(rv[2][1][0])
+                dst_ty = rv[3]
+                if src_ty in ('u64', 'usize') and dst_ty not in LOSSLESS_FROM_U64:
+                    bad.append('`%s as %s` at line %s' % (src_ty, dst_ty, ln))
+                elif src_ty not in ('u64', 'usize') and dst_ty != src_ty:
+                    bad.append('`%s as %s` at line %s' % (src_ty, dst_ty, ln))
+            if rv[0] == 'bin' and rv[1] in ('Shr', 'Shl', 'BitAnd', 'Rem', 'Div') and any(
+                    o[0] in ('copy', 'move') and o[1][0] in der for o in (rv[2], rv[3])):
+                bad.append('%s on the stake at line %s' % (rv[1], ln))
+        if b.term[0] == 'call':
+            c = b.term[1]
+            if any(a[0] in ('copy', 'move') and a[1][0] in der for a in c.args) and any(glob_match(p, n) for n in c.names() for p in LOSSY_CALLS):
+                bad.append('%s at line %s' % (fn_short(c.best()), c.line))
+    # non-vacuity: both values are actually consumed by a conversion call
+    used = {3: False, 4: False}
+    for c in body.calls():
+        for a in c.args:
+            if a[0] in ('copy', 'move') and a[1][0] in der:
+                for k in (3, 4):
+                    if a[1][0] == k or k in _roots(body, a[1][0], der):
+                        used[k] = True
+    inst = 'is_lottery_won: stake and total_stake are converted without narrowing / sign-changing / float casts'
+    if bad:
+        R.violation('d', 'R5', inst, 'lottery:lossy-input', '%s: the decision would differ from the exact comparison for stakes outside the narrowed range' % bad[:4], f.loc())
+    elif not all(used.values()):
+        R.violation('d', 'R5', inst, 'lottery:input-unused', 'stake used: %s, total stake used: %s' % (used[3], used[4]), f.loc())
+    else:
+        R.ok('d', 'R5', inst, '%d integer locals derived from the two inputs' % len(der), f.loc())
+
+
+def _roots(body, l, der, depth=6):
+    out = {l}
+    work = [l]
+    while work and depth:
+        depth -= 1
+        x = work.pop()
+        for (bi, si, pl, rv) in body.defs(x):
+            if si == 't':
+                continue
+            for o in ([rv[1]] if rv[0] == 'use' else [rv[2]] if rv[0] in ('cast', 'un') else [rv[2], rv[3]] if rv[0] == 'bin' else []):
+                if o[0] in ('copy', 'move') and o[1][0] in der and o[1][0] not in out:
+                    out.add(o[1][0])
+                    work.append(o[1][0])
+    return out
+
+
+_run0 = run
+
+
+def run(ctx):  # noqa: F811
+    _run0(ctx)
+    run_inputs(ctx)
